@@ -41,6 +41,7 @@ class VerusResult:
         self.fn_rlimit = set()
         self.failures = []       # dicts: fn, kind, detail, message, gen_line, src, rendered
         self.undecided = []      # strings
+        self.library_failures = []   # failures located in the hand-written proof library
         self.raw_summary = {}
         self.total_ms = 0
         self.cmd = ""
@@ -50,8 +51,9 @@ def verus_name_to_q(name):
     parts = name.split("::")
     return parts
 
-def run_verus(path, unit, rlimit=None, seed=None, timeout=1500):
-    cmd = ["verus", path, "--output-json", "--time", "--error-format=json", "--multiple-errors", "8", "--no-report-long-running", "--no-lifetime", "-V", "spinoff-all"]
+def run_verus(path, unit, rlimit=None, seed=None, timeout=1500, spinoff=False):
+    cmd = ["verus", path, "--output-json", "--time", "--error-format=json", "--multiple-errors", "8", "--no-report-long-running", "--no-lifetime"]
+    if spinoff: cmd += ["-V", "spinoff-all"]      # one z3 process per function: the query no longer depends on what was verified before it
     if rlimit: cmd += ["--rlimit", str(rlimit)]
     if seed is not None: cmd += ["--smt-option", "smt.random_seed=%d" % seed]
     res = VerusResult(); res.cmd = " ".join(cmd)
@@ -99,7 +101,7 @@ def run_verus(path, unit, rlimit=None, seed=None, timeout=1500):
             res.undecided.append("%s (line %d%s)" % (msg, gl, (", in " + fn) if fn else "")); continue
         if fn is None:
             # failure inside the hand-written prelude (a lemma): a broken proof script, not a code defect
-            res.undecided.append("proof-library failure: %s at generated line %d: %s" % (msg, gl, sp["text"][0]["text"].strip() if sp.get("text") else ""))
+            res.library_failures.append("proof-library failure: %s at generated line %d: %s" % (msg, gl, sp["text"][0]["text"].strip() if sp.get("text") else ""))
             continue
         src = None
         # real source line of the primary span (or of the first secondary span inside the body)
